@@ -1036,15 +1036,24 @@ def prog_features(mod):
 
 
 def returns_unsupplied_default(mod):
-    """Some flagged nested call leaves a defaulted parameter unsupplied that the callee returns as is."""
+    """Some flagged nested call reaches — directly, or through the nested calls inside its callee, at any depth — a call
+    that leaves a defaulted parameter unsupplied which that callee returns as is (the deactivation then yields the
+    default instead of None: the recorded known finding, whatever the depth at which the default sits)."""
+    def leaky(k, nsupplied, seen):
+        callee = mod["defs"][k]
+        for _k, a in callee["ret"]["items"]:
+            if a[0] == "v" and a[1] < len(callee["params"]) and not a[2] \
+                    and "default" in callee["params"][a[1]] and a[1] >= nsupplied:
+                return True
+        for st in callee["body"]:
+            if st["k"] == "dag" and (st["callee"], len(st["args"])) not in seen:
+                if leaky(st["callee"], len(st["args"]), seen | {(st["callee"], len(st["args"]))}):
+                    return True
+        return False
     for d in mod["defs"]:
         for st in d["body"]:
-            if st["k"] == "dag" and st.get("flag") is not None:
-                callee = mod["defs"][st["callee"]]
-                for _k, a in callee["ret"]["items"]:
-                    if a[0] == "v" and a[1] < len(callee["params"]) and not a[2] \
-                            and "default" in callee["params"][a[1]] and a[1] >= len(st["args"]):
-                        return True
+            if st["k"] == "dag" and st.get("flag") is not None and leaky(st["callee"], len(st["args"]), frozenset()):
+                return True
     return False
 
 
